@@ -192,7 +192,21 @@ class ModeController(MpfController):
         for mode in self.machine.modes.values():
             if not mode.is_game_mode:
                 continue
+            if mode.auto_stop_on_ball_end:
+                # a mode which was started after the ball had ended would otherwise keep
+                # running with its devices bound to this player during the next player's turn
+                if mode.active:
+                    mode.stop()
+                elif mode.starting:
+                    self.machine.events.add_handler('mode_{}_started'.format(mode.name),
+                                                    self._stop_mode_started_at_turn_end, mode=mode)
             mode.player = None
+
+    def _stop_mode_started_at_turn_end(self, mode, **kwargs):
+        del kwargs
+        self.machine.events.remove_handler_by_event('mode_{}_started'.format(mode.name),
+                                                    self._stop_mode_started_at_turn_end)
+        mode.stop()
 
     def _ball_starting(self, queue, **kwargs):
         del kwargs
